@@ -274,6 +274,8 @@ func (n *Node) monBlockCertificate(b *Block) {
 					key = "C02/unverified-commit/stored-before-preblock/amev"
 				} else {
 					key = "C02/unverified-commit/stored-without-header/no-amev"
+					// known finding; remember it so that an agreement violation it leads to is told apart from others
+					w.weakCert |= 1 << (uint64(b.index) % 64)
 				}
 			} else {
 				key = "C02/invalid-commit-counted-after-verification"
